@@ -326,6 +326,7 @@ pub fn compare_roundtrip(f: &Forest, roots: &[u64], dom: &WeakDom) -> Vec<Findin
     let pos_of_label: HashMap<u64, usize> = exp_order.iter().enumerate().map(|(k, l)| (*l, k)).collect();
     let pos_of_ref: HashMap<Ref, usize> = dec_order.iter().enumerate().map(|(k, r)| (*r, k)).collect();
     // which canonical properties does each class carry among the written instances
+    let mut class_renamed: HashMap<&str, BTreeSet<String>> = HashMap::new();
     let mut class_props: HashMap<&str, BTreeMap<String, Option<VariantType>>> = HashMap::new();
     let mut expects: Vec<Expect> = Vec::new();
     for l in &exp_order {
@@ -335,6 +336,9 @@ pub fn compare_roundtrip(f: &Forest, roots: &[u64], dom: &WeakDom) -> Vec<Findin
         for (k, (t, rb)) in &e.info {
             s.entry(k.clone()).or_insert(Some(*t));
             s.entry(rb.clone()).or_insert(Some(*t));
+            if k != rb {
+                class_renamed.entry(n.class.as_str()).or_default().insert(rb.clone());
+            }
         }
         for k in &e.unchecked {
             s.insert(k.clone(), None);
@@ -419,6 +423,9 @@ pub fn compare_roundtrip(f: &Forest, roots: &[u64], dom: &WeakDom) -> Vec<Findin
                 Some(Some(t)) => t,
                 _ => continue, // carried only by an unchecked spelling
             };
+            if class_renamed.get(n.class.as_str()).map(|s| s.contains(&q)).unwrap_or(false) {
+                continue; // the column belongs to a property whose name changes (reported as canonical-name-changes)
+            }
             let (known, ser_ty) = match logical(&n.class, &q) {
                 Logical::Prop { known, ser_ty, .. } => (known, ser_ty),
                 Logical::Skip => continue,
@@ -589,6 +596,8 @@ pub fn c07(id: &str, f: &Forest, r: &[(CompressionType, Enc)], out: &mut Vec<Str
                                 "renamed"
                             } else if wher.starts_with("PROP AttributesSerialize") {
                                 "attributes"
+                            } else if wher == "SSTR" || wher == "header" || wher == "INST" {
+                                "sstr"
                             } else {
                                 "other"
                             };
